@@ -526,7 +526,7 @@ def check_c12(prop, tier, seed):
 # IDManager / EpochManager: programs run by the thread harness (one build per ID capacity)
 # ------------------------------------------------------------------------------------------------
 def thread_check(prop, tier, seed, plan, proj, spec_name, cfg_path, describe, statuses=('ok', 'stuck'), max_rounds=3,
-                 crash_statuses=('crash', 'timeout', 'aborted')):
+                 crash_statuses=('crash', 'timeout', 'aborted'), extra=()):
     """plan: list of (capacity N, [program lines], dict(pb=, max_exec=, mode=))"""
     workdir = wdir(prop)
     os.makedirs(workdir, exist_ok=True)
@@ -568,11 +568,31 @@ def thread_check(prop, tier, seed, plan, proj, spec_name, cfg_path, describe, st
         violations.append({'desc': '%s: program %s (capacity %d, schedule %s): %s' % (prop, ex.prog, n, rle(ex.sched), desc),
                            'signature': ['cap:%d' % n] + sig,
                            'replay': {'kind': 'thread', 'program': ptext, 'schedule': ex.sched, 'n': n, 'spec': spec_name}})
+    extra_cov = {}
+    for xname, xproj, xspec, xcfg, xdescribe in extra:
+        # further trace specifications over the same real executions
+        xg = [g for g in vlib.dedup_histories([e for e in execs if e.status == 'ok'], lambda ex: xproj(ex, prog_text[ex.prog][1])) if g[0]]
+        xh = [g[0] for g in xg]
+        xr = [g[1] for g in xg]
+        xrej, xst = vlib.validate_until_clean(os.path.join(SPEC, xspec), xcfg, xh, workdir, prop.lower() + xname, max_rounds=2)
+        st['distinct'] += xst['distinct']
+        st['states'] += xst['states']
+        st['events'] += xst['events']
+        extra_cov[xname] = {'spec': xspec, 'streams': len(xh), 'events': xst['events'], 'rejected': len(xrej)}
+        for r in xrej[:6]:
+            ex = xr[r['hist']]
+            h = xh[r['hist']]
+            n, ptext = prog_text[ex.prog]
+            bad = h[r['line']] if r['line'] < len(h) else {'e': 'end-of-stream'}
+            desc, sig = xdescribe(ex, h, r['line'], bad)
+            violations.append({'desc': '%s: program %s (capacity %d, schedule %s): %s' % (prop, ex.prog, n, rle(ex.sched), desc),
+                               'signature': ['cap:%d' % n] + sig,
+                               'replay': {'kind': 'thread-x', 'program': ptext, 'schedule': ex.sched, 'n': n, 'spec': xspec, 'x': xname}})
     cov = {
         'states': max(1, st['distinct']), 'transitions': max(1, st['states']),
         'traces_validated_against_impl': len(execs), 'distinct_histories': len(hists),
         'events_validated': st['events'], 'programs': len(prog_text), 'exec_status': status_counts(allex),
-        'capacities': sorted(builds),
+        'capacities': sorted(builds), 'further_trace_specs': extra_cov,
         'samples': [{'program': reps[i].prog, 'schedule': reps[i].sched,
                      'history_head': [{k: v for k, v in e.items() if v not in (-1, '-')} for e in hists[i][:16]]}
                     for i in range(0, len(hists), max(1, len(hists) // 2))][:2],
@@ -625,8 +645,8 @@ def id_programs(n, tier):
     g2 = ' | '.join('ID HB:%d %s' % (n + k, ' '.join('EXP:%d' % o for o in range(1, n + 1))) for k in range(1, n + 1))
     out.append('P id%d_generations cap=%d hash=%s | %s || %s%s' % (n, n, ','.join(['0'] * (2 * n)), g1, g2, final))
     # stability: a thread asks again while a client holds a locked (strong) reference to its heartbeat
-    out.append('P id%d_pinned cap=%d hash=0,0 | ID HB:1 BAR:1:2 BAR:2:2 ID EXP:1 ID | BAR:1:2 HBL:1 BAR:2:2 %sHBU:1%s'
-               % (n, n, 'ID ' if n > 1 else '', final))
+    out.append('P id%d_pinned cap=%d hash=0,0 | ID HB:1 BAR:1:2 BAR:2:2 ID BAR:3:2 BAR:4:2 EXP:1 ID | '
+               'BAR:1:2 HBL:1 BAR:2:2 %sBAR:3:2 HBU:1 BAR:4:2 EXP:1%s' % (n, n, 'ID ' if n > 1 else '', final))
     return out
 
 
@@ -817,6 +837,11 @@ def epoch_programs(tier, which):
                  ep_prog('ep_mono_c', 3, ['G CUR GR CUR G GR', 'G D', 'F F F || F F || CUR MIN'])]
         plan.append((3, progs, dict(pb=2 if q else 3, max_exec=5000 if q else 60000)))
         plan.append((3, [ep_prog('ep_cross_a', 3, ['CUR G CUR D MIN', 'G D', 'FQ:254 F F F'])], dict(pb=1, max_exec=60 if q else 400)))
+        # guard objects handed from one thread to another: overwriting a live guard releases its pin, the handed-over pin
+        # stays until that guard is destroyed; once everything is destroyed (threads still alive) a forward is quiescent
+        progs = [ep_prog('ep_hand_a', 3, ['G GIVE:1 BAR:8:3 BAR:9:3', 'G TAKE:1 CUR D BAR:8:3 BAR:9:3', 'F BAR:8:3 F F BAR:9:3']),
+                 ep_prog('ep_hand_b', 3, ['G GIVE:1 BAR:8:3 BAR:9:3', 'TAKE:1 MV D BAR:8:3 BAR:9:3', 'F F BAR:8:3 F F BAR:9:3'])]
+        plan.append((3, progs, dict(pb=2 if q else 3, max_exec=1500 if q else 20000)))
     if 'list' in which:
         progs = [ep_prog('ep_list_a', 3, ['GL RL D GL RL D', 'G D', 'F F F']),
                  ep_prog('ep_list_b', 3, ['GL RL RL D', 'GL RL D', 'F F'])]
@@ -833,6 +858,69 @@ def epoch_programs(tier, which):
         # the same race at a node boundary: the worker reads epoch 767 (last of its range), two forwards follow
         plan.append((3, [ep_prog('ep_edge_a', 3, ['BAR:1:2 GL RL D', 'FQ:511 BAR:1:2 F F F'])], dict(pb=2, max_exec=150 if q else 1500)))
     return plan
+
+
+def epoch_hb_stream(ex, ptext=None):
+    """Operation stream of an epoch-manager execution for the happens-before monitor HBTrace: the coordinator's writes of
+    the list of epoch e (between reading the global epoch and publishing e) are an exclusive section on pseudo-lock e,
+    a guard holder's use of the list it was handed is a shared section on e."""
+    out = []
+    locs = {}
+    sid = [0]
+    wsec = {}       # coordinator thread -> (sid, epoch) of the open write section
+    rsec = {}       # worker thread -> (sid, epoch)
+    in_fwd = {}
+    for e in ex.events:
+        k = e.get('e')
+        t = e.get('t', 0)
+        if t <= 0:
+            continue
+        if k == 'fcall':
+            in_fwd[t] = True
+        elif k == 'fdone':
+            in_fwd[t] = False
+        elif k == 'op':
+            kind = e['k']
+            if kind == 'fence':
+                out.append({'e': 'fence', 't': t, 'loc': 0, 'acq': int(e['mo'] in vlib.ACQ), 'rel': int(e['mo'] in vlib.REL)})
+                continue
+            loc = locs.setdefault(e['loc'], len(locs) + 1)
+            mo = e['mo']
+            site = e.get('site', '')
+            is_pub = in_fwd.get(t) and kind == 'store' and e['loc'] == 'EM'
+            is_leave = kind == 'store' and site.startswith('epoch.cpp') and e['a'] == 'ffffffffffffffff'
+            if is_pub and t in wsec:
+                s0, ep = wsec.pop(t)
+                out.append({'e': 'end', 't': t, 'sid': s0, 'm': 'X', 'lk': ep})
+            if is_leave and t in rsec:
+                s0, ep = rsec.pop(t)
+                out.append({'e': 'end', 't': t, 'sid': s0, 'm': 'S', 'lk': ep})
+            if kind in ('load', 'casf'):
+                out.append({'e': 'ld', 't': t, 'loc': loc, 'acq': int(mo in vlib.ACQ), 'rel': 0})
+            elif kind == 'store':
+                out.append({'e': 'st', 't': t, 'loc': loc, 'acq': 0, 'rel': int(mo in vlib.REL)})
+            else:
+                out.append({'e': 'rmw', 't': t, 'loc': loc, 'acq': int(mo in vlib.ACQ), 'rel': int(mo in vlib.REL)})
+            if in_fwd.get(t) and kind == 'load' and e['loc'] == 'EM' and site.startswith('epoch_manager.cpp') and t not in wsec:
+                sid[0] += 1
+                wsec[t] = (sid[0], int(e['a'], 16) + 1)
+                out.append({'e': 'begin', 't': t, 'sid': sid[0], 'm': 'X', 'lk': wsec[t][1]})
+        elif k == 'gret' and e.get('haslist') == 1 and t not in rsec:
+            sid[0] += 1
+            rsec[t] = (sid[0], e['ep'])
+            out.append({'e': 'begin', 't': t, 'sid': sid[0], 'm': 'S', 'lk': e['ep']})
+    if len(locs) > 10 or not out:
+        return []
+    return [norm_hb(x) for x in out]
+
+
+def epoch_hb_describe(ex, h, line, bad):
+    return ('a guard holder of thread %s starts using the protected-epoch list of epoch %s although the coordinator\'s writes of that '
+            'list do not happen-before it (memory orders used: %s)'
+            % (bad.get('t'), bad.get('lk'), '; '.join(sorted({'%s %s %s' % (e['site'], e['k'], e['mo']) for e in ex.events
+                                                               if e.get('e') == 'op' and e.get('cls') == 'epoch' and e['k'] != 'load' or
+                                                               (e.get('e') == 'op' and e.get('site', '').startswith('epoch.cpp:') and e['loc'] == 'EM')}))),
+            ['ev:hb-' + str(bad.get('e')), 'status:' + ex.status])
 
 
 EPOCH_ASSUME = ['one coordinator thread; at most one guard per thread at a time (the library keeps one Epoch per thread)',
@@ -861,8 +949,11 @@ def check_c16(prop, tier, seed):
 @register('C17')
 def check_c17(prop, tier, seed):
     res = thread_check(prop, tier, seed, epoch_programs(tier, ('list',)), epoch_history, 'EpochAbsTrace.tla',
-                       epoch_cfg(['CkList'], prop), epoch_describe, statuses=('ok', 'stuck'))
-    res['assumptions'] = EPOCH_ASSUME
+                       epoch_cfg(['CkList'], prop), epoch_describe, statuses=('ok', 'stuck'),
+                       extra=[('pubhb', epoch_hb_stream, 'HBTrace.tla', os.path.join(SPEC, 'cfg', 'HBTrace.cfg'), epoch_hb_describe)])
+    res['assumptions'] = EPOCH_ASSUME + ['publication of a list (written once, before its epoch becomes current) is checked for '
+                                         'happens-before with the lock-agnostic monitor HBTrace over the memory orders passed at run '
+                                         'time: the coordinator\'s writes of the list of epoch e must happen-before a guard holder\'s use of it']
     return res
 
 
@@ -1123,6 +1214,23 @@ def replay_file(path):
                 h = vlib.node_stream(ex)
                 rej, _ = vlib.validate_histories(os.path.join(SPEC, rp['spec']), os.path.join(SPEC, 'cfg', rp['spec'].replace('.tla', '.cfg')),
                                                  [h], workdir, 'replay', nchunks=1)
+        elif kind == 'cex':
+            # a behaviour of the Level-2 specification (counterexample or generated walk) as program + schedule
+            bdir = vlib.build(rp.get('n', 4))
+            exs = vlib.replay(bdir, 'lockh', [rp['cls']], rp['program'], rp['schedule'], workdir)
+            ex = exs[0]
+            print('execution status:', ex.status, 'steps:', ex.steps)
+            bad = B2_OF[prop](rp['cls'], ex, rp['program'])
+            h = []
+            rej = [{'line': 0}] if bad else []
+        elif kind == 'thread-x':
+            bdir = vlib.build(rp['n'])
+            exs = vlib.replay(bdir, 'threadh', [], rp['program'], rp['schedule'], workdir)
+            ex = exs[0]
+            print('execution status:', ex.status, 'steps:', ex.steps)
+            h = epoch_hb_stream(ex)
+            rej, _ = vlib.validate_histories(os.path.join(SPEC, rp['spec']), os.path.join(SPEC, 'cfg', 'HBTrace.cfg'), [h], workdir, 'replay',
+                                             nchunks=1)
         elif kind == 'thread':
             bdir = vlib.build(rp['n'])
             exs = vlib.replay(bdir, 'threadh', [], rp['program'], rp['schedule'], workdir)
@@ -1146,7 +1254,7 @@ def replay_file(path):
         return 2
     if rej:
         line = rej[0]['line']
-        print('first unexplained event #%d: %s' % (line, h[line] if line < len(h) else 'end'))
+        print('first unexplained event #%d: %s' % (line, h[line] if line < len(h) else 'end (see the trace specification of the property)'))
         print('VIOLATION property=%s replay=%s' % (prop, path))
         return 1
     print('the recorded execution is accepted by the specification on the current tree (not reproduced)')
@@ -1181,6 +1289,30 @@ def add_level2(res, prop, tier, seed, classes, group, want, b2_reject):
             log(msg)
             notes.append(msg)
             continue
+        # B3': behaviours generated from the state graph of <Cls>Impl drive the real code; what comes out is validated
+        # against both levels (the walk itself is shared by all lock properties and cached per source tree)
+        wk = level2.model_walks(cls, tier, conf['mo'], seed)
+        entry['model_walks'] = {k: wk.get(k) for k in ('config', 'model_states', 'model_edges', 'edges_on_generated_paths', 'paths',
+                                                         'programs_run', 'exec_status', 'followed_intended_schedule', 'b1_streams',
+                                                         'b2_histories', 'b2_switches', 'sample')}
+        entry['model_walks']['b1_rejected'] = len(wk.get('b1_rejected', []))
+        entry['model_walks']['b2_rejected'] = len(wk.get('b2_rejected', []))
+        cov['states'] += wk.get('states', 0)
+        cov['transitions'] += wk.get('transitions', 0)
+        cov['traces_validated_against_impl'] += wk.get('programs_run', 0)
+        if wk.get('b1_rejected'):
+            msg = ('MODEL-DRIFT property=%s class=%s: a behaviour generated from %s drove the real code into an execution the '
+                   'specification does not have (program %s)' % (prop, cls, level2.CLS_MODULE[cls], wk['b1_rejected'][0].get('program')))
+            log(msg)
+            notes.append(msg)
+        for rj in wk.get('b2_rejected', [])[:3]:
+            exs = vlib.replay(vlib.build(4), 'lockh', [cls], rj['program'], rj['schedule'], workdir, tag='walkrj')
+            if exs and b2_reject(cls, exs[0], rj['program']):
+                res['violations'].append({
+                    'desc': '%s: a behaviour generated from the state graph of %s drives the real code into a history that violates '
+                            'the property: program %s, schedule %s' % (prop, level2.CLS_MODULE[cls], rj['program'], rle(rj['schedule'])),
+                    'signature': ['cls:' + cls, 'walk'],
+                    'replay': {'kind': 'cex', 'cls': cls, 'program': rj['program'], 'schedule': rj['schedule'], 'n': 4, 'prop': prop}})
         for r in level2.model_check(cls, group, tier, conf['mo'], want):
             entry['model_checking'].append({k: r[k] for k in ('tag', 'ok', 'violated', 'states', 'transitions', 'wall', 'invariants',
                                                                'properties', 'consts')})
@@ -1244,9 +1376,13 @@ L2_ASSUME = ['Level 2: TLC explores every interleaving of the atomic steps of <C
              'only when the real code follows it into a violation (B3)']
 
 
+B2_OF = {}
+
+
 def wrap_l2(prop, classes, group, want, b2):
     """decorate a registered B2 check with the Level-2 part"""
     inner = REGISTRY[prop]
+    B2_OF[prop] = b2
 
     def check(prop_, tier, seed):
         res = inner(prop_, tier, seed)
